@@ -38,6 +38,7 @@ fn process_commands(
                 } => {
                     responses.push(msg.clone());
                     log::debug!("Http response Error: {}", msg);
+                    while let Ok(Some(_)) = receiver.try_next() {}
                 }
                 _ => {
                     log::debug!("[http] - success processed");
@@ -60,6 +61,9 @@ fn process_commands(
                             )
                         }
                     }
+                    // One entry per command: whatever else this command queued (the second
+                    // notification of a key the session watches) is not the entry of the next one
+                    while let Ok(Some(_)) = receiver.try_next() {}
                 }
             }
         }
